@@ -83,7 +83,9 @@ def run_args(ctx):
     c = _c04()
     progs = dict(c.REUSE_PROGS)
     for gi, g in enumerate(GROUPS):
-        for name in ("Act", "AdjT", "LogMul", "Jinvp"):
+        for ni, name in enumerate(("Act", "AdjT", "LogMul", "Jinvp")):
+            if ctx.quick and (ni + gi) % 2:
+                continue
             fn = progs[name]
             dtype = "float64"
             case = {"stream": "args", "type": g, "program": name}
@@ -157,7 +159,7 @@ def run_args(ctx):
             fn2 = lambda X_, a_, p_: (a_.Exp() @ X_).Act(q)
             _, J0 = ref_jacobian(P, fn2, g, X, a, p)
             for kw in (dict(), dict(vectorize=True), dict(flatten=True), dict(vectorize=True, flatten=True), dict(create_graph=True),
-                       dict(strict=True), dict(create_graph=True, flatten=True), dict(strict=True, vectorize=True),
+                       dict(strict=True), dict(create_graph=True, flatten=True), dict(strict=True, flatten=True),
                        dict(strategy="reverse-mode", vectorize=True)):
                 for positional in (False, True):
                     ctx.count("args.modjac")
@@ -429,17 +431,36 @@ def run_copies(ctx):
             GT, AT = U.ltype(g), U.ltype(U.ALG[g])
 
             def clones(obj):
-                b = io.BytesIO()
-                torch.save(obj, b)
-                b.seek(0)
-                return {"deepcopy": copy.deepcopy(obj), "pickle": pickle.loads(pickle.dumps(obj)), "torch.save": torch.load(b, weights_only=False),
-                        "clone": obj.clone() if not isinstance(obj, torch.nn.Parameter) else P.Parameter(obj.detach().clone())}
+                """the copy operations that work on this object (an operation that raises is an observation, not a failure:
+                on the clean tree copy.deepcopy of a LieTensor leaf that requires grad raises inside torch)"""
+                def tsave(o):
+                    b = io.BytesIO()
+                    torch.save(o, b)
+                    b.seek(0)
+                    return torch.load(b, weights_only=False)
+                ops = {"deepcopy": copy.deepcopy, "pickle": lambda o: pickle.loads(pickle.dumps(o)), "torch.save": tsave,
+                       "clone": (lambda o: o.detach().clone().requires_grad_(True)) if not isinstance(obj, torch.nn.Parameter)
+                       else (lambda o: P.Parameter(o.detach().clone()))}
+                out = {}
+                for k_, f_ in ops.items():
+                    try:
+                        o_ = f_(obj)
+                        T(o_).detach()          # a copy that cannot even be read is "not supported" too
+                        if type(o_) is not type(obj):
+                            raise TypeError("copy has another class")   # e.g. pickle of pp.Parameter -> torch.nn.Parameter (clean tree)
+                        out[k_] = o_
+                    except Exception:
+                        ctx.count(f"copies.unsupported.{type(obj).__name__}.{k_}")
+                return out
             for kind in ("LieTensor", "Parameter"):
                 mk = (lambda t, lt: P.LieTensor(t.clone(), ltype=lt).requires_grad_(True)) if kind == "LieTensor" else \
                      (lambda t, lt: P.Parameter(P.LieTensor(t.clone(), ltype=lt)))
                 XL, aL = mk(X, GT), mk(a, AT)
+                cl_a = clones(aL)
                 for how, XC in clones(XL).items():
-                    aC = clones(aL)[how]
+                    if how not in cl_a:
+                        continue
+                    aC = cl_a[how]
                     ctx.count("copies.objects")
                     ctx.note_case(("copies", g, kind, how), True)
                     cc = dict(case, object=kind, how=how)
@@ -447,7 +468,7 @@ def run_copies(ctx):
                             or XC.requires_grad != XL.requires_grad or not same(XC, XL):
                         ctx.fail(cc, f"copies: {how} of a {g} {kind} lost class / ltype / requires_grad / data")
                         continue
-                    for name in ("Log", "AdjT", "Jinvp", "Act", "Retr"):
+                    for name in (("Log", "AdjT", "Act") if ctx.quick else ("Log", "AdjT", "Jinvp", "Act", "Retr")):
                         fn = progs[name]
                         # interleaved: original, copy, then the copy is updated in place, then both again
                         def gr(Xo, ao):
@@ -458,9 +479,8 @@ def run_copies(ctx):
                         o2, g2 = gr(XC, aC)
                         if not same(o1, o2) or not all(same(x, y) for x, y in zip(g1, g2)):
                             ctx.fail(dict(cc, read=name), f"copies: {name} on a {how} of a {g} {kind} differs from the original")
-                        with torch.no_grad():
-                            XC.copy_(P.LieTensor(X2, ltype=GT))
-                            aC.copy_(P.LieTensor(a2, ltype=AT))
+                        T(XC).data.copy_(X2)
+                        T(aC).data.copy_(a2)
                         o3, g3 = gr(XL, aL)
                         o4, g4 = gr(XC, aC)
                         of, gf = c.grads_of(P, fn, g, X2, a2, p)
@@ -468,11 +488,15 @@ def run_copies(ctx):
                             ctx.fail(dict(cc, read=name), f"copies: updating a {how} of a {g} {kind} in place changed {name} of the original")
                         if not same(o4, of) or not all(same(x, y) for x, y in zip(g4, gf)):
                             ctx.fail(dict(cc, read=name), f"copies: {name} on an updated {how} of a {g} {kind} does not follow its own data")
-                        with torch.no_grad():
-                            XC.copy_(P.LieTensor(X, ltype=GT))
-                            aC.copy_(P.LieTensor(a, ltype=AT))
-                sh = copy.copy(XL)
-                if getattr(sh, "ltype", None) != GT or not same(sh, XL):
+                        T(XC).data.copy_(X)
+                        T(aC).data.copy_(a)
+                try:
+                    sh = copy.copy(XL)
+                    T(sh).detach()
+                except Exception:
+                    sh = None
+                    ctx.count(f"copies.unsupported.{kind}.copy.copy")
+                if sh is not None and (getattr(sh, "ltype", None) != GT or not same(sh, XL)):
                     ctx.fail(dict(case, object=kind, how="copy.copy"), f"copies: copy.copy of a {g} {kind} lost ltype / data")
             # modules: deepcopy, state_dict
             class Mod(torch.nn.Module):
@@ -500,8 +524,7 @@ def run_copies(ctx):
                 J = P.optim.functional.modjac(m, input=q)
                 if getattr(m.X, "ltype", None) != GT or not all(same(x, y) for x, y in zip(J, J1)):
                     ctx.fail(cc, f"copies: modjac on a {how} of a module ({g}) differs from the original module")
-                with torch.no_grad():
-                    m.X.copy_(P.LieTensor(X2, ltype=GT))
+                T(m.X).data.copy_(X2)
                 Jo = P.optim.functional.modjac(m1, input=q)
                 Jn = P.optim.functional.modjac(m, input=q)
                 Jf = P.optim.functional.modjac(Mod(X2, a), input=q)
@@ -510,7 +533,8 @@ def run_copies(ctx):
                 if not all(same(x, y) for x, y in zip(Jn, Jf)):
                     ctx.fail(cc, f"copies: an updated {how} of a module ({g}) does not follow its own parameters")
         except Exception as e:
-            ctx.fail(case, f"raises: copies of {g} objects raised {type(e).__name__}: {str(e)[:140]}")
+            import traceback
+            ctx.fail(case, f"raises: copies of {g} objects raised {type(e).__name__}: {str(e)[:140]} @ {traceback.format_exc().splitlines()[-6:-2]}")
 
 
 def storage_ptr(t):
@@ -553,20 +577,30 @@ def run_owns(ctx):
                         if storage_ptr(t_) in seen:
                             ctx.fail(dict(case, result=lab), f"owns: {lab} and {seen[storage_ptr(t_)]} of {name} on {g} share one storage ({dtype})")
                         seen[storage_ptr(t_)] = lab
-                    # write into item 0 of every result
-                    snap = [t_.detach().clone() for _, t_ in res]
+                    # write into item 0 of every gradient: other items, inputs, cotangent and a second backward are unaffected
+                    gres = [(lab, t_) for lab, t_ in res if lab != "value"]
+                    snap = [t_.detach().clone() for _, t_ in gres]
                     with torch.no_grad():
-                        for _, t_ in res:
-                            T(t_)[0].mul_(0).add_(5.0)
-                    for (lab, t_), s_ in zip(res, snap):
+                        for _, t_ in gres:
+                            t_[0].mul_(0).add_(5.0)
+                    for (lab, t_), s_ in zip(gres, snap):
                         if t_.shape[0] > 1 and not same(t_[1:], s_[1:]):
                             ctx.fail(dict(case, result=lab), f"owns: writing item 0 of the {lab} of {name} on {g} changed its other items ({dtype})")
                     if not (same(Xl, X) and same(al, a) and same(pl, p) and same(cot, cot0)):
-                        ctx.fail(case, f"owns: writing into the results of {name} on {g} changed the inputs / the cotangent ({dtype})")
+                        ctx.fail(case, f"owns: writing into the gradients of {name} on {g} changed the inputs / the cotangent ({dtype})")
                     g2 = torch.autograd.grad(out, [Xl, al, pl], cot, allow_unused=True)
                     o3, g3 = c.grads_of(P, fn, g, X, a, p, cot)
-                    if not all(same(x, y) for x, y in zip(g2, g3)) or not same(o3, snap[0]):
-                        ctx.fail(case, f"owns: writing into the results of {name} on {g} changed a later backward / a later call ({dtype})")
+                    if not all(same(x, y) for x, y in zip(g2, g3)):
+                        ctx.fail(case, f"owns: writing into the gradients of {name} on {g} changed a later backward ({dtype})")
+                    # now the value (the graph is no longer needed)
+                    vsnap = out.detach().clone()
+                    od_ = out.detach()
+                    od_[0].mul_(0).add_(5.0)
+                    if od_.shape[0] > 1 and not same(od_[1:], vsnap[1:]):
+                        ctx.fail(case, f"owns: writing item 0 of the value of {name} on {g} changed its other items ({dtype})")
+                    o4, g4 = c.grads_of(P, fn, g, X, a, p, cot)
+                    if not (same(Xl, X) and same(al, a) and same(pl, p)) or not same(o4, vsnap) or not all(same(x, y) for x, y in zip(g4, g3)):
+                        ctx.fail(case, f"owns: writing into the value of {name} on {g} changed the inputs or a later call ({dtype})")
                 except Exception as e:
                     ctx.fail(case, f"raises: memory-ownership probe of {name} on {g} ({dtype}) raised {type(e).__name__}: {str(e)[:140]}")
 
@@ -587,76 +621,66 @@ def run_sizes(ctx, dtypes=("float64",)):
     for gi, g in enumerate(GROUPS):
         extra = [((GD[g],), (GD[g],)), ((AD_[g],), (AD_[g],)), ((GD[g], 1), (1, AD_[g]))]
         for dtype in dtypes:
-            for name, fn in reads(P):
-                for sx, sy in SIZE_SHAPES + extra:
+            for ri, (name, fn) in enumerate(reads(P)):
+                for si, (sx, sy) in enumerate(SIZE_SHAPES + extra):
+                    if ctx.quick and (si + ri + 5 * gi) % 5 != 0:
+                        continue          # quick tier: every shape pair meets every read in one of the groups
                     case = {"stream": "sizes", "type": g, "dtype": dtype, "read": name, "shape_X": list(sx), "shape_other": list(sy)}
                     try:
                         nx, ny = int(math.prod(sx)), int(math.prod(sy))
-                        X, _, _ = mixed_inputs(P, g, dtype, nx, gi)
-                        _, a, p = mixed_inputs(P, g, dtype, ny, gi + 1)
-                        X = X.reshape(sx + (GD[g],))
-                        a = a.reshape(sy + (AD_[g],))
-                        p = p.reshape(sy + (3,))
-                        so = tuple(torch.broadcast_shapes(sx, sy))
+                        Xf, _, _ = mixed_inputs(P, g, dtype, nx, gi)
+                        _, af, pf = mixed_inputs(P, g, dtype, ny, gi + 1)
+                        X, a, p = Xf.reshape(sx + (GD[g],)), af.reshape(sy + (AD_[g],)), pf.reshape(sy + (3,))
                         o1, g1 = c.grads_of(P, fn, g, X, a, p)
                         ctx.count("sizes.calls")
                         ctx.note_case(("sizes", g, dtype, name, sx, sy), True)
-                        # the same thing item by item
-                        Xe = X.expand(so + (GD[g],)).reshape(-1, GD[g])
-                        ae = a.expand(so + (AD_[g],)).reshape(-1, AD_[g])
-                        pe = p.expand(so + (3,)).reshape(-1, 3)
-                        nb = Xe.shape[0]
-                        uses = [x is not None for x in g1]
-                        od = o1.shape[len(so):] if uses[0] or name not in ("Exp", "matrixA") else o1.shape[len(sy):]
-                        lead = so if (uses[0] or name not in ("Exp", "matrixA")) else sy
+                        nd = 2 if name in ("matrix", "matrixA") else 1
+                        lead = tuple(o1.shape[:-nd])
+                        od = tuple(o1.shape[-nd:])
+
+                        def idx(shape, n):
+                            try:
+                                return torch.arange(n).reshape(shape).expand(lead).reshape(-1).tolist()
+                            except RuntimeError:
+                                return None
+                        ix, iy = idx(sx, nx), idx(sy, ny)
+                        if (ix is None and g1[0] is not None) or (iy is None and (g1[1] is not None or g1[2] is not None)):
+                            ctx.fail(case, f"sizes: value of {name} on {g} with batch shapes {sx} x {sy} has shape {tuple(o1.shape)}")
+                            continue
                         cot = cot_for(o1)
-                        cf = cot.reshape((-1,) + tuple(od))
-                        of = o1.reshape((-1,) + tuple(od))
-                        accs = [torch.zeros_like(Xe), torch.zeros_like(ae), torch.zeros_like(pe)]
-                        bad = False
-                        n_lead = int(math.prod(lead))
-                        for b in range(n_lead):
-                            if lead == so:
-                                xi, ai, pi = Xe[b], ae[b], pe[b]
-                            else:
-                                xi, ai, pi = Xe[0], a.reshape(-1, AD_[g])[b], p.reshape(-1, 3)[b]
-                            ob, gb = c.grads_of(P, fn, g, xi, ai, pi, cf[b])
-                            if not close(of[b], ob, 256 * common.EPS[dtype]) and not same(of[b], ob):
-                                bad = True
-                            for k in range(3):
+                        cf, of = cot.reshape((-1,) + od), o1.reshape((-1,) + od)
+                        accs = [torch.zeros_like(Xf), torch.zeros_like(af), torch.zeros_like(pf)]
+                        nbl = int(math.prod(lead))
+                        vbad = False
+                        for b in range(nbl):
+                            bx, by = (ix[b] if ix is not None else 0), (iy[b] if iy is not None else 0)
+                            ob, gb = c.grads_of(P, fn, g, Xf[bx], af[by], pf[by], cf[b])
+                            if not same(of[b], ob) and not close(of[b], ob, 256 * common.EPS[dtype]):
+                                vbad = True
+                            for k, bi in ((0, bx), (1, by), (2, by)):
                                 if gb[k] is not None:
-                                    accs[k][b if lead == so else (0 if k == 0 else b)] += gb[k]
-                        if bad:
+                                    accs[k][bi] += gb[k]
+                        if vbad:
                             ctx.fail(case, f"sizes: value of {name} on {g} with batch shapes {sx} x {sy} differs from the item-wise calls ({dtype})")
-                        if lead == so:
-                            for k, (gk, leaf, shp, d) in enumerate(zip(g1, (X, a, p), (sx, sy, sy), (GD[g], AD_[g], 3))):
-                                if gk is None:
-                                    continue
-                                full = accs[k].reshape(so + (d,))
-                                # sum over broadcast dimensions back to the leaf's shape
-                                red = full
-                                lead_extra = len(so) - len(shp)
-                                if lead_extra:
-                                    red = red.sum(dim=tuple(range(lead_extra)))
-                                for dim_i, e in enumerate(shp):
-                                    if e == 1 and red.shape[dim_i] != 1:
-                                        red = red.sum(dim=dim_i, keepdim=True)
-                                if gk.shape != leaf.shape:
-                                    ctx.fail(case, f"sizes: gradient #{k} of {name} on {g} has shape {tuple(gk.shape)} for a leaf of shape {tuple(leaf.shape)}")
-                                    continue
-                                absacc = None
-                                err = (gk.double() - red.double()).abs()
-                                sc = red.double().abs().amax(dim=-1, keepdim=True) + 1e-300
-                                if bool((err > 1024 * common.EPS[dtype] * nb * sc).any()):
-                                    ctx.fail(case, f"sizes: gradient #{k} of {name} on {g} with batch shapes {sx} x {sy} differs from the sum of the "
-                                                   f"item-wise gradients by {float(err.max()):.3e} ({dtype})")
+                        for k, (gk, leaf, acc) in enumerate(zip(g1, (X, a, p), accs)):
+                            if gk is None:
+                                continue
+                            if gk.shape != leaf.shape:
+                                ctx.fail(case, f"sizes: gradient #{k} of {name} on {g} has shape {tuple(gk.shape)} for a leaf of shape {tuple(leaf.shape)}")
+                                continue
+                            red = acc.reshape(leaf.shape).double()
+                            err = (gk.double() - red).abs()
+                            sc = red.abs().amax(dim=-1, keepdim=True) + 1e-300
+                            if bool((err > 1024 * common.EPS[dtype] * max(1, nbl) * sc).any()):
+                                ctx.fail(case, f"sizes: gradient #{k} of {name} on {g} with batch shapes {sx} x {sy} differs from the sum of the "
+                                               f"item-wise gradients by {float(err.max()):.3e} ({dtype})")
                     except Exception as e:
                         ctx.fail(case, f"raises: {name} on {g} with batch shapes {sx} x {sy} ({dtype}) raised {type(e).__name__}: {str(e)[:140]}")
 
 
 # ----------------------------------------------------------------------------- (17) interleavings in one process
 
-def run_interleave(ctx):
+def run_interleave(ctx, again=False):
     """module-level state across types / dtypes / batch sizes: one multiset of calls (every read, every group, both dtypes,
     batch sizes 1, 2, 3, forward + backward, some through vmap) executed in five different orders; every call must return
     bit-identical values and gradients in every order, and equal the item-wise single calls"""
@@ -668,6 +692,8 @@ def run_interleave(ctx):
     for gi, g in enumerate(GROUPS):
         for ri, (name, fn) in enumerate(rd):
             for dtype in ("float64", "float32"):
+                if ctx.quick and dtype == "float32" and (ri + gi) % 2:
+                    continue
                 n = (1, 3, 2, 1)[(gi + ri + (dtype == "float32")) % 4]
                 specs.append((k, g, name, fn, dtype, n))
                 k += 1
@@ -690,7 +716,10 @@ def run_interleave(ctx):
         "stride 7": [specs[(i * 7) % len(specs)] for i in range(len(specs))] if math.gcd(7, len(specs)) == 1 else
                     [specs[(i * 11) % len(specs)] for i in range(len(specs))],
     }
-    first = {}
+    if again:
+        orders = {"stride 7, after all other streams": orders["stride 7"]}
+    first = getattr(ctx, "_c04_first", {}) if again else {}
+    ctx._c04_first = first
     for oname, order in orders.items():
         for spec in order:
             case = {"stream": "interleave", "order": oname, "type": spec[1], "read": spec[2], "dtype": spec[4], "batch": spec[5]}
@@ -711,6 +740,8 @@ def run_interleave(ctx):
             if not ok:
                 ctx.fail(dict(case, first_order=o0), f"interleave: {spec[2]} on {spec[1]} ({spec[4]}, batch {spec[5]}) gives another result in call order "
                                                      f"'{oname}' than in '{o0}' — state leaks between calls of different types / dtypes / batch sizes")
+    if again:
+        return
     # and every call equals its item-wise evaluation (a cache corrupted before the first order would otherwise go unnoticed)
     for spec in specs:
         _, g, name, fn, dtype, n = spec
@@ -745,4 +776,4 @@ def run_all(ctx):
     run_copies(ctx)
     run_owns(ctx)
     run_sizes(ctx, dtypes=("float64",) if ctx.quick else ("float64", "float32"))
-    run_interleave(ctx)        # and once more after everything else has run
+    run_interleave(ctx, again=True)        # and once more after everything else has run
